@@ -1,1 +1,6 @@
-//! Reference models and helpers shared by the lab binaries.
+//! Reference models ("boring", independent of the code under test) and helpers shared by labs.
+
+pub mod refmodel;
+pub mod atoms;
+pub mod session;
+pub mod session_oracles;
